@@ -390,3 +390,198 @@ Example C01_nested_for_nonvacuous :
   (let r := exec f7_cfg (libcore f7_cfg) Run.no_url Run.no_lint 600 (compile_u 0 nest_prog) 0 [] None UHost nest_world in
    (fst (fst r), rev (w_log (snd r)))) = (OVal (VStr (U "done")), nest_log).
 Proof. vm_compute. repeat split. Qed.
+
+(* ------------------------------------------------------------------------------------------------------------------------
+   THE WHOLE BLOCK-STRUCTURED LANGUAGE IN ONE THEOREM (Proofs/C01u.v, Proofs/C01uReal.v).
+
+   [unistmt]: skip, sequencing, assignment, expression statement, return, break, continue, if / elif / else chains, while AND for,
+   nested arbitrarily (a for inside an if branch inside a while body inside a for ...): this closes the gap named above ("a `for`
+   INSIDE an if branch or inside a while body").  Source trees write a for loop as [NForS x idx e body] (idx = [] for no index
+   variable); [uname] gives every loop the names the parser gives its three temporaries (one label counter in source order, one
+   index per if / elif / while / for: C01_unified_naming_follows_the_lowering); [ucompile_real n s] is the lowering; [UExec] is
+   the structured reading (rules of SExec for if / while, rules of GExec for for; same definedness side conditions per for loop).
+
+   FULL STATEMENT (not proved in full): for EVERY well-formed tree, whenever UExec ends, the interpreter run on the lowered code
+   ends with the same result, the same locals and (up to the statement counter) the same world.
+
+   PROVED (C01_unified_simulation_partial): the same under [uguard s = true].  It is `partial` ONLY because of
+     (1) the guard of known finding F7: no `continue` whose innermost enclosing loop is a `while` (a `continue` inside a for inside
+         a while is allowed) - without it the statement is FALSE for the implementation (C01_F7_continue_in_while above);
+     (2) the definedness side conditions inside the for rules of UExec (arrayLength / arrayGet resolve to the library functions,
+         the body leaves the three temporaries alone, element i exists when iteration i starts; non-array loop values and
+         array-shrinking bodies have no rule);
+     (3) [uwf false]: break / continue only inside loops, the rest position of an if holds endif / else / elif, the temporaries
+         of every for have fine names ([names_okb]; automatic unless the source names its own index variable).
+   Premises on the library only (fuel monotone, counter blind, contracts of arrayLength / arrayGet: all proved for the modelled
+   library, C01_for_premises_hold_for_combined_library).
+   [ucompile_real] IS the parser's lowering, PROVED for the whole language including `continue` and `for`
+   (C01_unified_compile_is_the_parser_lowering: the parser's pure lowering step folded over the tree's line kinds;
+   C01_unified_parse_is_compile: hence the parser model's output whenever the lines classify to those kinds;
+   C01_unified_end_to_end_partial: parse, then run = the structured reading).  That the PRINTED text of a tree classifies to its
+   kinds is the regex-level fact the check decides per case inside Coq (Model/RunC01u.v check_lowering_n, family `ucore`). *)
+From BS Require Import Model.RunC01u Proofs.C01u Proofs.C01uReal Proofs.C01uLower.
+
+Theorem C01_unified_simulation_partial : forall cfg, c_max cfg = 0%Z ->
+  forall lib url_rel lint_lines, lib_fuel_monotone lib -> lib_count_blind lib ->
+  arrayLength_contract lib -> arrayGet_contract lib ->
+  forall um n s loc w o loc' w',
+  UExec cfg lib url_rel lint_lines um (fst (uname n s)) (loc, w) o (loc', w') ->
+  uwf false (fst (uname n s)) = true -> uguard s = true ->
+  forall wm, weq w wm ->
+  exists out wm', scope_result o = Some out /\ weq w' wm' /\
+    Run cfg lib url_rel lint_lines um (ucompile_real n s) 0 loc wm (out, loc', wm').
+Proof. exact unified_simulation. Qed.
+Print Assumptions C01_unified_simulation_partial.
+
+(* the same at any position of a larger statement list with unique labels, inside any enclosing loop (continuation form [post] of
+   C01_for_simulation_in_context_partial; abstract label names) *)
+Theorem C01_unified_simulation_in_context_partial : forall cfg, c_max cfg = 0%Z ->
+  forall lib url_rel lint_lines, lib_fuel_monotone lib ->
+  forall um lab labc,
+  (forall e loc w o w' wm, Ev cfg lib url_rel lint_lines um e loc w o w' -> weq w wm ->
+     exists wm', Ev cfg lib url_rel lint_lines um e loc wm o wm' /\ weq w' wm') ->
+  arrayLength_contract lib -> arrayGet_contract lib ->
+  forall s st o st', UExec cfg lib url_rel lint_lines um s st o st' ->
+  forall code ctx cpos n pc wm, NoDup (labels code) -> cont_ok code ctx cpos -> uwf (is_some ctx) s = true -> uguard s = true ->
+    code_at code pc (fst (ucompile lab labc ctx n s)) -> weq (snd st) wm ->
+    exists wm', weq (snd st') wm' /\
+      post cfg lib url_rel lint_lines um code cpos (pc + length (fst (ucompile lab labc ctx n s))) o (fst st') wm' pc (fst st) wm.
+Proof. exact usim. Qed.
+Print Assumptions C01_unified_simulation_in_context_partial.
+
+(* all labels of the lowered code are defined once *)
+Theorem C01_unified_compiled_labels_unique : forall ctx n s, NoDup (labels (fst (ucompile real_lab real_labc ctx n s))).
+Proof. exact ucompile_real_NoDup. Qed.
+Print Assumptions C01_unified_compiled_labels_unique.
+
+(* the structured reading is executable: a sound interpreter for UExec *)
+Theorem C01_unified_structured_interpreter_sound : forall cfg lib url_rel lint_lines um fuel s st o st',
+  uexec cfg lib url_rel lint_lines um fuel s st = Some (o, st') -> UExec cfg lib url_rel lint_lines um s st o st'.
+Proof. exact uexec_sound. Qed.
+Print Assumptions C01_unified_structured_interpreter_sound.
+
+(* [uname] advances the label counter exactly as the lowering does, and changes neither the F7 guard nor which `continue`s bind
+   to the enclosing loop *)
+Theorem C01_unified_naming_follows_the_lowering : forall s n, ushape s = true ->
+  (forall ctx, snd (ucompile real_lab real_labc ctx n (fst (uname n s))) = snd (uname n s)) /\
+  uguard (fst (uname n s)) = uguard s /\ uhas_cont (fst (uname n s)) = uhas_cont s.
+Proof.
+  intros s n Hs. split; [exact (proj1 (uname_counter s n Hs))|split; [exact (uname_guard s n)|exact (uname_has_cont s n)]].
+Qed.
+Print Assumptions C01_unified_naming_follows_the_lowering.
+
+(* the fragment of C01_simulation_partial is the for-free special case: same code, and its reading is a UExec *)
+Theorem C01_unified_extends_fragment : forall cfg lib url_rel lint_lines um lab labc s,
+  (forall ctx n, ucompile lab labc ctx n (of_sstmt s) = compile lab ctx n s) /\
+  (forall st o st', SExec cfg lib url_rel lint_lines um s st o st' -> UExec cfg lib url_rel lint_lines um (of_sstmt s) st o st').
+Proof.
+  intros cfg lib url_rel lint_lines um lab labc s.
+  split; [exact (proj1 (ucompile_of_sstmt lab labc s))|exact (SExec_UExec cfg lib url_rel lint_lines um s)].
+Qed.
+Print Assumptions C01_unified_extends_fragment.
+
+(* [ucompile_real] IS the parser's lowering, for every well-shaped source tree ([uwfs]: break / continue inside loops, if chains
+   well-shaped; no condition on names - the parser chooses them - and NO exclusion of `continue`): folding the parser's pure lowering
+   step (Model/Lower.v kstep; Props/C07.v proves pstep = classify ; kstep) over the line kinds of the tree, from the parser's initial
+   state and whatever the line numbers and texts are, gives exactly ucompile_real(tree), the counter of [uname], and no open block *)
+Theorem C01_unified_compile_is_the_parser_lowering : forall ann s, uwfs false s = true ->
+  kfold ann 0 ps_init (ukinds s) = ROk (gstate (ucompile_real 0 s) 0 [] (snd (uname 0 s))).
+Proof. exact ulowering_of_a_scope. Qed.
+Print Assumptions C01_unified_compile_is_the_parser_lowering.
+
+(* ... at any parser state of the global scope: the code is appended, the counter advances as [uname] says, and the frame stack is
+   as before except that the innermost loop frame is marked `has continue` iff the tree has a `continue` binding to it *)
+Theorem C01_unified_lowering_in_context : forall s ann i code depth fr n, uwfs (is_some (ctx_of fr)) s = true ->
+  kfold ann i (gstate code depth fr n) (ukinds s) =
+  ROk (gstate (code ++ fst (ucompile real_lab real_labc (ctx_of fr) n (fst (uname n s)))) depth (markf (uhas_cont s) fr) (snd (uname n s))).
+Proof. intros s. exact (proj1 (ulower_is_ucompile s)). Qed.
+Print Assumptions C01_unified_lowering_in_context.
+
+(* ... hence: whenever the logical lines of a text classify (statement regexes + expression parser) to the line kinds of the
+   tree, the parser model's result for that text is ucompile_real(tree) *)
+Theorem C01_unified_parse_is_compile : forall lines start s lls ls',
+  uwfs false s = true ->
+  llines lines 0 {| l_cont := []; l_ix := 0 |} = (lls, LDone ls') -> l_cont ls' = [] ->
+  Forall2 (fun il k => classify (start + fst il) (snd il) = ROk k) lls (ukinds s) ->
+  match ploop lines 0 {| l_cont := []; l_ix := 0 |} ps_init start with
+  | ROk (ls, ps) => pfinish ls ps start
+  | RErr e => RErr e | RHost w => RHost w | RFuel => RFuel
+  end = ROk (ucompile_real 0 s).
+Proof. exact uparse_is_ucompile. Qed.
+Print Assumptions C01_unified_parse_is_compile.
+
+(* END TO END (the property itself, for one scope): a text whose logical lines classify to the line kinds of a source tree parses
+   to a statement list on which the interpreter does what the structured reading of the tree says.  `partial` for the same three
+   reasons as C01_unified_simulation_partial (F7 guard, definedness side conditions of for, uwf). *)
+Theorem C01_unified_end_to_end_partial : forall cfg, c_max cfg = 0%Z ->
+  forall lib url_rel lint_lines, lib_fuel_monotone lib -> lib_count_blind lib ->
+  arrayLength_contract lib -> arrayGet_contract lib ->
+  forall um lines start s lls ls',
+  llines lines 0 {| l_cont := []; l_ix := 0 |} = (lls, LDone ls') -> l_cont ls' = [] ->
+  Forall2 (fun il k => classify (start + fst il) (snd il) = ROk k) lls (ukinds s) ->
+  forall loc w o loc' w',
+  UExec cfg lib url_rel lint_lines um (fst (uname 0 s)) (loc, w) o (loc', w') ->
+  uwf false (fst (uname 0 s)) = true -> uguard s = true ->
+  forall wm, weq w wm ->
+  exists code out wm',
+    match ploop lines 0 {| l_cont := []; l_ix := 0 |} ps_init start with
+    | ROk (ls, ps) => pfinish ls ps start
+    | RErr e => RErr e | RHost w => RHost w | RFuel => RFuel
+    end = ROk code /\
+    scope_result o = Some out /\ weq w' wm' /\ Run cfg lib url_rel lint_lines um code 0 loc wm (out, loc', wm').
+Proof. exact unified_end_to_end. Qed.
+Print Assumptions C01_unified_end_to_end_partial.
+
+(* non-vacuity: a `for` (with index variable, `continue` and `break`) inside an if / else inside a `while` (with `break`), statements
+   around them: all hypotheses of C01_unified_simulation_partial hold, the parser model lowers the text to ucompile_real, and the
+   structured reading and the interpreter on the lowered code both log the same four lines and return 'done' *)
+Definition uni_text : str := U "i = 0
+while i < 3:
+    i = i + 1
+    if i != 2:
+        for v, k in arr:
+            if v == 20:
+                continue
+            endif
+            if v == 30 && i == 3:
+                break
+            endif
+            systemLog('i=' + i + ' v=' + v + ' k=' + k)
+        endfor
+    else:
+        systemLog('skip ' + i)
+    endif
+    if i == 3:
+        break
+    endif
+endwhile
+return 'done'
+".
+Definition uni_lit (k : Z) : expr := ENum (NFlt (Z_to_sf k)).
+Definition uni_prog : unistmt :=
+  NSeq (NAssign (U "i") (uni_lit 0))
+  (NSeq (NWhile (EBin (U "<") (EVar (U "i")) (uni_lit 3))
+     (NSeq (NAssign (U "i") (EBin (U "+") (EVar (U "i")) (uni_lit 1)))
+     (NSeq (NIf (EBin (U "!=") (EVar (U "i")) (uni_lit 2))
+              (NForS (U "v") (U "k") (EVar (U "arr"))
+                 (NSeq (NIf (EBin (U "==") (EVar (U "v")) (uni_lit 20)) NContinue NSkip)
+                 (NSeq (NIf (EBin (U "&&") (EBin (U "==") (EVar (U "v")) (uni_lit 30)) (EBin (U "==") (EVar (U "i")) (uni_lit 3))) NBreak NSkip)
+                       (NExpr (ECall (U "systemLog")
+                          [EBin (U "+") (EBin (U "+") (EBin (U "+") (EBin (U "+") (EBin (U "+") (EStr (U "i=")) (EVar (U "i"))) (EStr (U " v=")))
+                                (EVar (U "v"))) (EStr (U " k="))) (EVar (U "k"))])))))
+              (NElse (NExpr (ECall (U "systemLog") [EBin (U "+") (EStr (U "skip ")) (EVar (U "i"))]))))
+           (NIf (EBin (U "==") (EVar (U "i")) (uni_lit 3)) NBreak NSkip))))
+  (NReturn (Some (EStr (U "done"))))).
+Definition uni_world : world :=
+  upd_arrs (world0 (inject_library [(U "arr", VArr 0)])) [[VNum (NInt 10); VNum (NInt 20); VNum (NInt 30)]].
+Definition uni_log : list str := [U "i=1 v=10 k=0"; U "i=1 v=30 k=2"; U "skip 2"; U "i=3 v=10 k=0"].
+
+Example C01_unified_nonvacuous :
+  uwf false (fst (uname 0 uni_prog)) = true /\ uguard uni_prog = true /\ ushape uni_prog = true /\ uwfs false uni_prog = true /\
+  check_lowering_n uni_text uni_prog = true /\
+  option_map (fun r => (fst r, rev (w_log (snd (snd r)))))
+    (uexec f7_cfg (libcore f7_cfg) Run.no_url Run.no_lint UHost 300 (fst (uname 0 uni_prog)) (None, uni_world))
+    = Some (SStop (OVal (VStr (U "done"))), uni_log) /\
+  (let r := exec f7_cfg (libcore f7_cfg) Run.no_url Run.no_lint 600 (ucompile_real 0 uni_prog) 0 [] None UHost uni_world in
+   (fst (fst r), rev (w_log (snd r)))) = (OVal (VStr (U "done")), uni_log).
+Proof. vm_compute. repeat split. Qed.
